@@ -45,7 +45,7 @@ inline std::vector<Field> MmioFields() {
         add(b + 14, 0, 16, RW, "TIMER_PWM_H");
     }
     for (std::uint16_t i = 0; i < 3; ++i) {
-        add(0xC0 + i * 4, 0, 16, FIFO, "APBP_REPLY");
+        add(0xC0 + i * 4, 0, 16, RW, "APBP_REPLY"); // DSP-side read-back is a peek of the word it sent last (apbp.md: a new word overwrites an unread one)
         add(0xC2 + i * 4, 0, 16, FIFO, "APBP_CMD");
     }
     add(0xCC, 0, 16, W1S, "APBP_SET_SEMAPHORE");
